@@ -602,8 +602,7 @@ func sequentialLRU(r *mon.Run, c Case) {
 			e, _ := ed25519.NewExpandedPublicKey(lk.pubs[k])
 			inner.Put(&scratch, e)
 			if i := find(k); i >= 0 {
-				model[i].val = e
-				touch(i)
+				touch(i) // Put of a resident key keeps the resident expansion and only marks it most recently used
 			} else {
 				if len(model) == c.Capacity {
 					model = model[:len(model)-1]
